@@ -470,3 +470,4 @@ proof fn lemma_mul_block(x: u64)
     assert(x * FEOX_BLOCK_SIZE as u64 == x as int * 4096) by (nonlinear_arith)
         requires FEOX_BLOCK_SIZE == 4096;
 }
+
